@@ -124,7 +124,8 @@ def rand_slice(R: Draw, g: DocGen, size: str = "tiny") -> dict:
                 b = R.choice(crossing)
             elif later:
                 b = R.choice(later)
-        sl = S.ref_slice(T, a, b)
+        # Node.slice(from, to, include_parents=True) keeps the common ancestors in the slice, open on both sides
+        sl = S.ref_slice(T, a, b, include_parents=R.bool(0.15))
         if sl is not None:
             return sl
     return dict(EMPTY_SLICE)
